@@ -1,4 +1,5 @@
 import Crv.Proofs.StoreSound
+import Crv.Proofs.Skeleton
 import Crv.Generated.Mode
 import Crv.Props.C03
 /-!
@@ -302,5 +303,10 @@ example : (verifyProg.run .crlOnly (envOf .good .error) true).verdict = .reject 
 example : isRevoked decNone exD2 false
     [some { loaded := true, store := some (.ldb exH) }, some { loaded := true, store := none }] [65] 6 = .error := by decide
 end Examples
+
+/-- The hand-written `Store` model this property rests on was transcribed from exactly these sources: the fingerprints are
+recomputed from /repo on every run (tools/extract/skeleton.go), so any change to one of the functions breaks this obligation. -/
+theorem store_sources_as_transcribed : Crv.Generated.skeletonStore = Crv.Skeleton.expectedStore :=
+  Crv.Skeleton.store_sources_as_transcribed
 
 end Crv.Props.C09
